@@ -821,7 +821,7 @@ def values_copy(o: Out, nm, body, what):
     o.add(nm + 'ValuesCopy', [], 'Bool', 'true', f'{what} convert_values is exactly `from(to);`', cv)
 
 
-def translate_coo_coo(o: Out, body):
+def translate_coo_coo(o: Out, body, coo_order):
     what = 'SparseCOO→SparseCOO'
     cs = method(body, r'to_sparsity_t\s+convert_sparsity\s*\(', what)
     fields, cs = return_fields(cs, what)
@@ -857,9 +857,10 @@ def translate_coo_coo(o: Out, body):
     o.regions['cooCooBodySkeleton'] = h
     pin('cooCoo', h, f'{what}: resize/transform statements')
     oast = cp.parse_expression(fields['order'])
-    if oast[0] != 'cast' or oast[2] != ('mem', ('id', 'from'), 'order', False):
-        raise TranslationError(f'{what}: .order is not a cast of from.order')
-    o.add('cooCooOrder', [('from_order', 'Int')], 'Int', 'from_order',
+    oenv = Env(ints={'from.order': 'from_order'},
+               enums={**{'to_sparsity_t::' + n: v for n, v in coo_order},
+                      **{'from_sparsity_t::' + n: v for n, v in coo_order}})
+    o.add('cooCooOrder', [('from_order', 'Int')], 'Int', lean_int(oast, oenv),
           f'{what}: `.order` of the returned pattern (`static_cast<Order>(from.order)`)', oast)
     values_copy(o, 'cooCoo', body, what)
 
@@ -1002,7 +1003,7 @@ def main(out_path):
 
     # CSC → COO, COO → COO
     translate_csc_coo(o, need('SparseCSC', 'SparseCOO'), coo_order, csc_order)
-    translate_coo_coo(o, need('SparseCOO', 'SparseCOO'))
+    translate_coo_coo(o, need('SparseCOO', 'SparseCOO'), coo_order)
 
     # COO → CSC and CSC → CSC: compiled-out fallbacks; CSC → CSC request logic pinned
     need('SparseCOO', 'SparseCSC')
